@@ -134,10 +134,10 @@ func TestC04SM(t *testing.T) {
 func TestC08SM(t *testing.T) {
 	runSM(t, smSpec{
 		Name: "TestC08SM", Prop: "C08",
-		Rule: "history in which the four annotations (rolling-update-paused, rollout-frozen, canary-paused, canary-unpaused) are set, flipped and removed (values true/false/absent/garbage) over rollouts in progress (outdated, missing, unavailable pods, joining nodes, with or without canary); monitors paused-frozen, promotion-rule and the status function (state/reason); then the annotations are removed and the history must converge (resume); non-trivial = an annotation was true during a sync that read work to do (outdated or missing pods); distinct by action trace",
+		Rule: "history in which the four annotations (rolling-update-paused, rollout-frozen, canary-paused, canary-unpaused) are set, flipped and removed (values true/false/absent/garbage) over rollouts in progress (outdated pods - by a new template or by a node's resources override annotation -, missing, unavailable pods, joining nodes, with or without canary); monitors paused-frozen, promotion-rule and the status function (state/reason); then the annotations are removed and the history must converge (resume); non-trivial = an annotation was true during a sync that read work to do (outdated or missing pods); distinct by action trace",
 		Cfg: WorldCfg{MinNodes: 2, MaxNodes: 6, Letters: "ABC", Strategy: gen.StrategyOpts{Canary: 1}, Forks: 1, Affinity: 2, PlainNodes: true, Warmup: 5, StartEdit: 1,
 			Monitors: mon.Of("paused-frozen", "promotion-rule", "status-function", "canary-verdict", "no-panic"),
-			Weights:  weights(defaultWeights(), map[string]int{"annotation": 8, "edit-template": 4, "node-add": 3, "round": 6, "pod-unknown": 0, "node-taint": 0, "node-relabel": 0})},
+			Weights:  weights(defaultWeights(), map[string]int{"annotation": 8, "edit-template": 4, "node-add": 3, "round": 6, "pod-unknown": 0, "node-taint": 0, "node-relabel": 0, "node-annotate": 3})},
 		MinSteps: 15, MaxSteps: 60,
 		After: func(w *World) { w.stabilise("resume") },
 		NonTrivial: func(w *World) bool {
@@ -231,7 +231,7 @@ func TestC13SM(t *testing.T) {
 	runSM(t, smSpec{
 		Name: "TestC13SM", Prop: "C13",
 		Rule: "history over template-edit words on the alphabet A,B,C (A->B->A, A->B->C, edits during a canary), edits of the ExtendedDaemonSet's own metadata.labels, with every interleaving of EDS, replica-set and PodTemplate reconciles and pod/kubelet steps that shape replica-set statuses at clean-up time; monitors rs-identity (one replica set per template, template/hash triple, pod hash = creator's) and rs-gc (never the active or matching set, only all-zero status, failed canary kept two minutes), plus PodTemplate = spec.template after each PodTemplate reconcile; non-trivial = the word revisits a letter or has >= 3 edits; distinct by action trace",
-		Cfg: WorldCfg{MinNodes: 1, MaxNodes: 4, Letters: "ABC", Strategy: gen.StrategyOpts{Canary: 1}, Forks: 0, Affinity: 2, PlainNodes: true, Warmup: 4, StartEdit: 1,
+		Cfg: WorldCfg{MinNodes: 1, MaxNodes: 4, Letters: "ABCIJ", Strategy: gen.StrategyOpts{Canary: 1}, Forks: 0, Affinity: 2, PlainNodes: true, Warmup: 4, StartEdit: 1,
 			Monitors: mon.Of("rs-identity", "rs-gc", "no-panic"),
 			Weights:  weights(defaultWeights(), map[string]int{"edit-template": 8, "rec-eds": 12, "rec-pt": 5, "round": 5, "node-taint": 0, "node-relabel": 0, "eds-relabel": 3})},
 		MinSteps: 15, MaxSteps: 70,
